@@ -4,7 +4,7 @@
    Gen.v changes and these proofs are re-checked against the new text. *)
 From Coq Require Import QArith Qabs Lqa Lia ZArith.
 From EsVerif.Common Require Import Base.
-From EsVerif.C18 Require Import Model Spec QLemmas MomProofs MedianProofs ClipProofs InterpProofs CorProofs Gen.
+From EsVerif.C18 Require Import Model Spec QLemmas MomProofs MedianProofs ClipProofs InterpProofs CorProofs BoxProofs Gen.
 Open Scope Q_scope.
 
 (* ------------------------------------------------------------------ wmom *)
@@ -204,10 +204,16 @@ Lemma gen_cor2cov_entries cor d :
 Proof. exact (cor2cov_spec cor d). Qed.
 
 (* ------------------------------------------------------------------ boxcar_average *)
-(* numpy.convolve(x, k) (mode 'full'):  out[j] = sum_i x[i] * k[j - i]  over 0 <= j - i < len k *)
-Definition conv_full (x ker : list Q) (j : nat) : Q :=
-  Sum (map (fun i => if (i <=? j)%nat && (j - i <? length ker)%nat then nth i x 0 * nth (j - i) ker 0 else 0)
-           (seq 0 (length x))).
-
-Lemma gen_boxcar_consts N : gen_boxcar_skip N = (N - 1)%Z /\ gen_boxcar_weight (inject_Z N) == 1 / inject_Z N.
-Proof. split; reflexivity. Qed.
+(* the model's window mean is numpy's full convolution with the kernel ones(N)/N, sliced at the
+   source's offset *)
+Lemma gen_boxcar_convolution x N :
+  (0 < N)%Z -> x <> [] ->
+  exists out, boxcar_average x N = Ok out /\ length out = length x
+    /\ forall k, (k < length x)%nat ->
+         nth k out 0 == conv_full x (repeat (gen_boxcar_weight (inject_Z N)) (Z.to_nat N))
+                                  (k + Z.to_nat (gen_boxcar_skip N)).
+Proof.
+  intros HN Hx. destruct (boxcar_spec x N HN Hx) as [out [E [L H]]].
+  exists out. split; [exact E|]. split; [exact L|]. intros k Hk. rewrite (H k Hk).
+  symmetry. apply boxcar_is_convolution; [exact HN|reflexivity|reflexivity].
+Qed.
